@@ -44,7 +44,7 @@ def tok_lit(w):
 def run(tier, seed, replay=None):
     assert_repo_import()
     chk = Check("C15", tier, seed)
-    model_ok = chk.proof_stage(["Gsm/Unamb.vo", "Scope/Headers.vo", "Gen/GenPatterns.vo"])
+    model_ok = chk.proof_stage(["Gsm/Unamb.vo", "Scope/Headers.vo", "Gen/GenPatterns.vo", "Gsm/UnambProofs.vo"])
     tlen = 4 if tier == "quick" else 5
     jobs = []
     for lang in LANGS:
